@@ -11,8 +11,8 @@
    risor on top of it (one [act] = one atomic step of one script goroutine):
      Send i    Chan.Send       select { ctx.Done | c.value <- v }          sender i's next value
      Recv j    Chan.Receive    select { ctx.Done | v, ok := <-c.value }    ok=false -> Nil
-     Take j    Chan.NextEntry  the same select (the value stays in a local variable)          } what the VM's ForIter
-     Fin j     Chan.NextEntry  n := atomic.AddInt64(&c.rxCount, 1); the entry (key n-1, value) } opcode does for a
+     Take j    Chan.NextEntry  the same select (the value stays in a local variable)          } what ForIter, keys() and
+     Fin j     Chan.NextEntry  n := atomic.AddInt64(&c.rxCount, 1); the entry (key n-1, value) } map() do for a
                                is built from that local value                                 } channel (range loops)
      Next j    Chan.Next       the select of Receive; ok=false -> (nil, false)     } the three statements
      Store j   Chan.Next       c.lastReceived = value                             } of Chan.Next are
@@ -23,8 +23,8 @@
      SendCtx / RecvCtx / NextCtx   the ctx.Done() branch of the select (enabled once cancelled)
    Next/Store/Count/Entry are the generic Iterator protocol (call Next, DROP its value, call Entry):
    two calls that communicate through the fields lastReceived / rxCount of the shared Chan object.
-   Range loops no longer use it for channels (fix 0f2710a), but the builtins keys(ch) and map(ch)
-   still do (builtins/builtins.go: iterKeys, Map).  Receiver j is "inside the protocol" ([iters])
+   Neither range loops (fix 0f2710a) nor the builtins keys(ch) / map(ch) (fix ce76520, object.IterNextEntry)
+   use it for channels any more; it is exported Go API only.  Receiver j is "inside the protocol" ([iters])
    from its Next to its Entry.  (rxCount++ and the reads of Entry are taken as atomic.)
 
    Messages carry a ghost tag (the sender) next to the payload; [deq] is the ghost log of dequeue
